@@ -39,18 +39,41 @@ def _history_runner():
         except error.RenderableError as e:
             return e.to_message()
 
+    class FakeClient:
+        """the client side of the directory (used by simple registration to fetch the registrant's /.well-known/core): answers with
+        the link set in `links`, or with 4.04 when `fail` is set"""
+        fail, links = False, ''
+
+        def request(self, msg):
+            ctx = self
+
+            class Req:
+                @property
+                def response_raising(self):
+                    async def fetch():
+                        await asyncio.sleep(0)
+                        if ctx.fail:
+                            raise error.ResponseWrappingError(Message(code=aiocoap.NOT_FOUND))
+                        m = Message(code=aiocoap.CONTENT, payload=ctx.links.encode())
+                        m.opt.content_format = ContentFormat.LINKFORMAT
+                        return m
+                    return fetch()
+            return Req()
+
     async def settle():
         for _ in range(8):
             await asyncio.sleep(0)
 
     EPS = ['n1', 'n2']
     OPS = [('reg', e, lt) for e in EPS for lt in (60, 200)] + [('reg_bad', e) for e in EPS] + [('upd', e, lt) for e in EPS for lt in (None, 200)] + \
-          [('upd_body', e) for e in EPS[:1]] + [('upd_badlt', e) for e in EPS[:1]] + [('put', e) for e in EPS[:1]] + [('del', e) for e in EPS] + [('wait', 50), ('wait', 100)]
+          [('upd_body', e) for e in EPS[:1]] + [('upd_badlt', e) for e in EPS[:1]] + [('put', e) for e in EPS[:1]] + [('del', e) for e in EPS] + [('wait', 50), ('wait', 100)] + \
+          [('upd', 'n1', 60), ('simple', 'n1'), ('simple_fail', 'n1')]
 
     async def run(seq):
         """returns None or a description of the first disagreement with the reference model"""
         loop = asyncio.get_running_loop()
-        site = StandaloneResourceDirectory(context=None)
+        client = FakeClient()
+        site = StandaloneResourceDirectory(context=client)
         remotes = {e: FakeRemote('coap://[2001:db8::%d]' % (i + 1)) for i, e in enumerate(EPS)}
         model, now, serial, locations = {}, 0.0, 0, {}
         for step, op in enumerate(seq):
@@ -82,6 +105,24 @@ def _history_runner():
                         locations[e] = loc
                     elif not (128 <= int(r.code) < 160):
                         return 'step %d %r: invalid registration answered %s' % (step, op, r.code)
+                elif kind in ('simple', 'simple_fail'):
+                    # simple registration: the directory fetches the links from the registrant; a failed fetch is answered 4.xx
+                    client.fail, client.links = kind == 'simple_fail', link
+                    r = await req(site, remotes[e], POST, ('.well-known', 'rd'), ['ep=' + e, 'lt=200'])
+                    if kind == 'simple':
+                        if r.code != aiocoap.CHANGED:
+                            return 'step %d %r: simple registration answered %s' % (step, op, r.code)
+                        epl = (await req(site, remotes[EPS[0]], GET, site.ep_lookup_path)).payload.decode('utf8')
+                        here = [l for l in epl.split(',') if ('ep="%s"' % e) in l]
+                        if len(here) != 1:
+                            return 'step %d %r: after a successful simple registration the endpoint lookup has %d entries for %s: %s' % (step, op, len(here), e, epl)
+                        loc = tuple(here[0].split('>')[0].lstrip('<')[1:].split('/'))        # </reg/1/> is the location ('reg', '1', '')
+                        if alive and loc != model[e]['loc']:
+                            return 'step %d %r: re-registration moved from %r to %r' % (step, op, model[e]['loc'], loc)
+                        model[e] = {'lt': 200, 'until': now + 200 + GRACE, 'link': link, 'loc': loc}
+                        locations[e] = loc
+                    elif not (128 <= int(r.code) < 160):
+                        return 'step %d %r: simple registration whose fetch fails answered %s' % (step, op, r.code)
                 else:
                     loc = locations.get(e)
                     if loc is None or (not alive and any(o['loc'] == loc for o in model.values())):
